@@ -18,6 +18,9 @@
  * of the source tree.
  */
 #include "request_parser.h"
+#include <cerrno>
+#include <cctype>
+#include <cstdlib>
 #include <limits>
 #include <tbox/base/defines.h>
 #include <tbox/util/string.h>
@@ -132,8 +135,18 @@ size_t RequestParser::parse(const void *data_ptr, size_t data_size)
             auto head_value = util::string::Strip(str.substr(head_value_start_pos, head_value_end_pos - head_value_start_pos));
             sp_request_->headers[head_key] = head_value;
 
-            if (head_key == "Content-Length")
-                content_length_ = std::stoi(head_value);
+            if (head_key == "Content-Length") {
+                //! 只接受十进制数字，且不能溢出
+                char *end_ptr = nullptr;
+                errno = 0;
+                auto value = std::strtoull(head_value.c_str(), &end_ptr, 10);
+                if (!std::isdigit(static_cast<unsigned char>(head_value[0])) || *end_ptr != '\0' ||
+                    errno == ERANGE || value >= std::numeric_limits<size_t>::max()) {
+                    state_ = State::kFail;
+                    return pos;
+                }
+                content_length_ = value;
+            }
 
             pos = end_pos + 2;
         }
